@@ -69,6 +69,11 @@ class Cell:
 def _limits():
     lim = MEM_LIMIT_GB * (1 << 30)
     resource.setrlimit(resource.RLIMIT_AS, (lim, lim))
+    try:   # a killed check must not leave solver processes behind: PR_SET_PDEATHSIG = 1
+        import ctypes, signal
+        ctypes.CDLL("libc.so.6", use_errno=True).prctl(1, signal.SIGKILL)
+    except Exception:
+        pass
 
 
 # Global limits on concurrently running solver processes: every cbmc run takes one of SOLVER_SLOTS; the runs of
